@@ -1352,3 +1352,36 @@ m('c09-accumulate-folded-position', ['C09'],
                     j = glob_2_loc[elem_nbr]
                     if i < j: sobolev[j, ax] += val_nbr
 """), rule='R-accumulate')
+LEFT_OLD = """    assert x_a == y_a and x_b < y_b
+    return spacetime_integrated_kernel(
+        t_a, t_b, s_a, s_b, x_a, x_b, y_a, x_b) + spacetime_integrated_kernel(
+            t_a, t_b, s_a, s_b, x_a, x_b, x_b, y_b)
+"""
+CORPUS.append(dict(id='twin-exact-unrolled', props=['C01', 'C11', 'C12'], edits=[(SLX, LEFT_OLD, """    assert x_a == y_a and x_b < y_b
+    return spacetime_integrated_kernel_1(
+        t_a, t_b, s_a, s_b, x_b - x_a) + spacetime_integrated_kernel_2(
+            t_a, t_b, s_a, s_b, x_b - x_a, y_b - x_b)
+""")], rule=None, expect='noalarm'))
+m('c12-exact-unrolled-stale', ['C01', 'C11', 'C12'],
+  (SLX, LEFT_OLD, """    assert x_a == y_a and x_b < y_b
+    return spacetime_integrated_kernel_1(
+        t_a, t_b, s_a, s_b, x_b - x_a) + spacetime_integrated_kernel_2(
+            t_a, t_b, s_a, s_b, x_b - x_a, y_b - y_a)
+"""), rule='R-partition')
+m('c15-degenerate-isclose', ['C15'],
+  (Q, "        if a == b: return 0\n", "        if np.isclose(a, b): return 0\n"), rule='R-affine')
+m('c20-rhs-elif', ['C20', 'C03'],
+  (HH, """        if self.g:
+            rhs += self.g(elems_fine)
+
+        # Evaluate the RHS on the fine mesh.
+        if self.M0:
+            rhs -= self.M0.linform_vector(elems=elems_fine, use_mp=self.use_mp)""",
+   """        if self.M0:
+            rhs = -self.M0.linform_vector(elems=elems_fine, use_mp=self.use_mp)
+        elif self.g:
+            rhs = self.g(elems_fine)"""), rule='R-signs')
+m('c07-mirror-reversed', ['C07', 'C15'],
+  (Q, "            self._mirror = QuadScheme1D(1 - self.points, self.weights)",
+   "            self._mirror = QuadScheme1D((1 - self.points)[::-1], self.weights[::-1])"),
+  rule='R-mirror')
